@@ -194,7 +194,36 @@ func (r *runner) submit(g string) {
 	c := r.newCb(g)
 	r.pushSub(g, c)
 	nested := r.sc.Nested && c%11 == 0
-	r.s.WithGroup(g, func(*res.Service) { r.body(c, g, nested) })
+	// vary the public entry point: WithGroup, With (group computed by the Mux from the ${g} template or the
+	// Parallel flag) and WithResource; they all end in runWith with the same group
+	rid := fmt.Sprintf("svc.item.%d.%s", c, g)
+	if g == "" {
+		rid = fmt.Sprintf("svc.par.%d", c)
+	}
+	switch c % 4 {
+	case 1:
+		if err := r.s.With(rid, func(res.Resource) { r.body(c, g, nested) }); err != nil {
+			r.violation("with-error: With reported an error for a resource with a matching handler: " + err.Error())
+		}
+	case 2:
+		rs, err := r.s.Resource(rid)
+		if err != nil {
+			r.violation("with-error: Resource reported an error for a resource with a matching handler: " + err.Error())
+			r.s.WithGroup(g, func(*res.Service) { r.body(c, g, nested) })
+			return
+		}
+		r.s.WithResource(rs, func() { r.body(c, g, nested) })
+	default:
+		r.s.WithGroup(g, func(*res.Service) { r.body(c, g, nested) })
+	}
+	// With on a resource id no handler matches must report an error and run nothing (no runWith at all)
+	if c%13 == 0 {
+		if err := r.s.With(fmt.Sprintf("other.%d", c), func(res.Resource) {
+			r.violation("with-nomatch-ran: callback of With on an unmatched resource id was executed")
+		}); err == nil {
+			r.violation("with-nomatch-no-error: With on an unmatched resource id returned nil")
+		}
+	}
 }
 
 func (r *runner) sendRequest(cn *conn, inCh chan *nats.Msg, g string) (ok bool) {
